@@ -236,8 +236,8 @@ func (f *failingStore) AddMessage(m storage.Message) (string, error) {
 // for both. scn 0: two recipients name the same mailbox (by case and +extension) and the mailbox
 // cap is 1, so the second copy evicts the first: the listener sees stored(1), deleted(1),
 // stored(2) - a message's stored event before its deleted event. scn 1: the store fails for the
-// second recipient's mailbox: the copy that was stored for the first recipient still has its
-// stored event (one event per message that entered a mailbox).
+// second recipient's mailbox: the delivery as a whole fails, so nothing stays in any mailbox (C01),
+// and the copy that had been stored for the first recipient has a stored and a deleted event.
 func VerifC16DeliverOrder(scn int) {
 	hooks := extension.NewHost()
 	var seen []string
@@ -281,9 +281,12 @@ func VerifC16DeliverOrder(scn int) {
 		vrf.Assert("deliver-noerr", derr == nil)
 		vrf.Assert("stored-before-deleted-in-order", len(seen) == 3 && seen[0] == "Su1/1" && seen[1] == "Du1/1" && seen[2] == "Su1/2")
 	} else {
+		// C01: a transaction that is refused (the session answers 451 when Deliver fails) adds
+		// nothing to any mailbox - the copy stored for the first recipient does not stay; C16: the
+		// message that entered and left the mailbox has its stored and its deleted event
 		vrf.Assert("deliver-reports-the-failure", derr != nil)
 		ms, _ := st.GetMessages("u1")
-		vrf.Assert("first-copy-stored", len(ms) == 1)
-		vrf.Assert("one-stored-event-per-stored-message", len(seen) == 1 && seen[0] == "Su1/1")
+		vrf.Assert("failed-delivery-leaves-nothing-behind", len(ms) == 0)
+		vrf.Assert("events-of-the-undone-copy", len(seen) == 2 && seen[0] == "Su1/1" && seen[1] == "Du1/1")
 	}
 }
